@@ -584,6 +584,36 @@ func TestStreams(t *testing.T) {
 			run(tw, st, stt, seen)
 		}
 	}
+	// 2b. claimed-size VarInts padded beyond five bytes (not a VarInt any more): the frame's own
+	// length prefix is minimal, the frame must be rejected whatever the padded value would be
+	for _, dir := range []string{"sb", "cb"} {
+		for _, thr := range []int{0, 64, 256} {
+			overlong := func(v uint64, width int) []byte {
+				out := make([]byte, width)
+				for i := range out {
+					out[i] = byte(v&0x7f) | 0x80
+					v >>= 7
+				}
+				out[width-1] &= 0x7f
+				return out
+			}
+			for _, width := range []int{6, 7, 10} {
+				for _, c := range []struct {
+					claimed uint64
+					body    []byte
+				}{
+					{0, pattern(min(thr, 20))},                            // "uncompressed"
+					{300, deflate(pattern(300), zlib.DefaultCompression)}, // would inflate exactly
+					{1<<32 + 300, deflate(pattern(300), zlib.BestSpeed)},  // low 32 bits are a legal size
+				} {
+					in := append(overlong(c.claimed, width), c.body...)
+					st := stream{dir: dir, thr: thr, src: "claimed-overlong"}
+					st.b = append(plainFrame(in), goodFrame(sentinelPayload, thr)...)
+					run(tw, st, stt, seen)
+				}
+			}
+		}
+	}
 	// 3. runs of empty frames in front of a valid frame
 	for k := 0; k <= 14; k++ {
 		for _, thr := range []int{-1, 64} {
